@@ -28,7 +28,7 @@ ARCHF = TObj(ArchitectureFeatures)
 REGISTRY.declare_class(
     ArchitectureFeatures,
     vela_config=CFG, axi0_port=TEnum(MemArea), axi1_port=TEnum(MemArea), const_mem_area=TEnum(MemPort), arena_mem_area=TEnum(MemPort),
-    cache_mem_area=TEnum(MemPort), arena_cache_size=PyInt, max_address_offset=PyInt, shram_size_bytes=PyInt,
+    cache_mem_area=TEnum(MemPort), arena_cache_size=PyInt, max_address_offset=PyInt, shram_size_bytes=PyInt, ncores=TInt(lo=1, hi=2),
     permanent_storage_mem_area=TEnum(MemArea), feature_map_storage_mem_area=TEnum(MemArea), fast_storage_mem_area=TEnum(MemArea),
 )
 
